@@ -16,7 +16,7 @@ C04  Genomic-model predictions are linear, label-preserving and self-consistent 
 """
 import ast
 
-from sa.astutil import oriented, dump, where, kwargs_of, walk_no_nested, field_of
+from sa.astutil import is_guard, oriented, dump, where, kwargs_of, walk_no_nested, field_of
 from sa.model import body_nodoc, FuncInfo
 from sa.vn import VN, Poly, VNUnknown, comparable, parse_expr
 from rules import c09
@@ -148,8 +148,10 @@ def check_kernels(prog, rep):
                 if not isinstance(H, ast.Name):
                     rep.unrec("R1-linear", construct, "from_numpy(mat=<local>) not found")
                     continue
-                tail = [s_ for s_ in body if not isinstance(s_, (ast.If, ast.Return, ast.Expr))]
                 zarg = [a_ for a_ in kcall[0].args if isinstance(a_, ast.Name)]
+                # the design handed to the kernel is an input of this part (its construction is the dispatch rule's subject below), wherever it is assembled
+                tail = [s_ for s_ in body if not isinstance(s_, (ast.If, ast.Return, ast.Expr))
+                        and not (isinstance(s_, ast.Assign) and isinstance(s_.targets[0], ast.Name) and s_.targets[0].id in [a_.id for a_ in zarg])]
                 env = {a_.id: Poly.atom(("var", "<design>")) for a_ in zarg}
                 try:
                     vn = VN(prog, f, env)
@@ -182,7 +184,8 @@ def check_kernels(prog, rep):
                 good = None
             if K.name == "DenseAdditiveDominanceLinearGenomicModel" and name in ("gegv", "predict", "var_G"):
                 # every type-dispatch branch builds the design handed to the kernel as [A, D]
-                disp = [s_ for s_ in body if isinstance(s_, ast.If) and "isinstance(%s" % g in "".join(dump(s_.test).split())]
+                guards = [s_ for s_ in body if isinstance(s_, ast.If) and is_guard(s_) and "isinstance(%s" % g in "".join(dump(s_.test).split())]
+                disp = [s_ for s_ in body if isinstance(s_, ast.If) and "isinstance(%s" % g in "".join(dump(s_.test).split()) and s_ not in guards]
                 if len(disp) != 1 or len(kcall) != 1:
                     rep.unrec("R1-linear", construct, "type dispatch on %s / kernel call not found" % g)
                     continue
@@ -191,7 +194,16 @@ def check_kernels(prog, rep):
                 node = disp[0]
                 while isinstance(node, ast.If):
                     branches.append(("GenotypeMatrix" if "GenotypeMatrix" in dump(node.test) else ("ndarray" if "ndarray" in dump(node.test) else "?"), node.body))
+                    if node.orelse and not (len(node.orelse) == 1 and isinstance(node.orelse[0], ast.If)) and not isinstance(node.orelse[-1], ast.Raise):
+                        # plain else branch: it serves the one remaining accepted type when a guard in front admits exactly (GenotypeMatrix, ndarray)
+                        seen_k = {k_ for k_, _ in branches}
+                        gt = "".join(dump(guards[0].test).split()) if len(guards) == 1 else ""
+                        rest = {"GenotypeMatrix", "ndarray"} - seen_k
+                        two = gt.startswith("notisinstance(%s,(" % g) and "GenotypeMatrix" in gt and "ndarray" in gt and gt.count(",") == 2
+                        branches.append((rest.pop() if two and len(rest) == 1 else "?", node.orelse))
                     node = node.orelse[0] if len(node.orelse) == 1 and isinstance(node.orelse[0], ast.If) else None
+                # statements after the dispatch that assemble the design from what the branches left
+                after = [s_ for s_ in body[body.index(disp[0]) + 1:] if isinstance(s_, ast.Assign) and isinstance(s_.targets[0], ast.Name) and s_.targets[0].id in zname]
                 REFD = {"GenotypeMatrix": "numpy.concatenate([{g}.mat_asformat('{{0,1,2}}'), numpy.logical_and({g}.mat_asformat('{{0,1,2}}') != 0, {g}.mat_asformat('{{0,1,2}}') != {g}.ploidy)], axis=1)",
                         "ndarray": "numpy.concatenate([{g}, {g} == 1], axis=1)"}
                 SWAP = {"GenotypeMatrix": "numpy.concatenate([numpy.logical_and({g}.mat_asformat('{{0,1,2}}') != 0, {g}.mat_asformat('{{0,1,2}}') != {g}.ploidy), {g}.mat_asformat('{{0,1,2}}')], axis=1)",
@@ -203,7 +215,7 @@ def check_kernels(prog, rep):
                         continue
                     try:
                         bv = VN(prog, f)
-                        for s_ in bb:
+                        for s_ in list(bb) + after:
                             if isinstance(s_, ast.Assign):
                                 bv.stmt(s_)
                         zs = [bv.env.get(z_) for z_ in zname if z_ in bv.env and z_ not in f.params()]
